@@ -16,7 +16,7 @@ import common as C  # noqa: E402
 
 ID = "C19"
 CHECKER = "chk_config"
-THEOREMS = ['C19_omitted_is_default', 'C19_omitted_is_default_cli', 'C19_fill_defaults_total', 'C19_given_keys_land', 'C19_absent_keys_default', 'C19_invalid_choice_rejected', 'C19_valid_accepted', 'C19_rgrid_spec', 'C19_rgrid_from_keys', 'C19_cli_args_land', 'C19_cli_plan_spec', 'C19_cli_filter_iff_cutoff', 'C19_cli_lorch_iff_flag', 'C19_cli_equals_library_partial', 'C19_cli_reads_differently_refuted', 'C19_cli_reads_differently_always', 'C19_cli_drops_first_data_row']
+THEOREMS = ['C19_omitted_is_default', 'C19_omitted_is_default_cli', 'C19_fill_defaults_total', 'C19_given_keys_land', 'C19_absent_keys_default', 'C19_invalid_choice_rejected', 'C19_valid_accepted', 'C19_rgrid_spec', 'C19_rgrid_from_keys', 'C19_cli_args_land', 'C19_cli_plan_spec', 'C19_cli_filter_iff_cutoff', 'C19_cli_lorch_iff_flag', 'C19_cli_equals_library_partial', 'C19_cli_reads_differently_refuted', 'C19_cli_reads_differently_always', 'C19_cli_drops_first_data_row', 'C19_cli_is_a_workflow_run', 'C19_cli_keen_outputs', 'C19_cli_final_flow']
 RULE = ("StoG(**cfg) for subsets of the optional keys (thorough: every presence pattern of the 14 optional keys; quick: sampled) with valid, "
         "invalid (unknown function name, non-boolean flag) and boundary values; r grid compared element-wise with np.arange; pystog_cli run "
         "end to end in a scratch directory in JSON and flag form, its call sequence and its files compared with driving the library with "
@@ -255,12 +255,25 @@ def run_impl(pystog, case):
     class Rec(pystog.StoG):
         pass
 
+    flowrec = {}
+
+    def arrs(seq):
+        return [np.asarray(v, float).tolist() for v in seq]
+
     def wrap(name):
         orig = getattr(pystog.StoG, name)
 
         def f(self, *a, **k):
             calls.append((name, k.get("skiprows")))
-            return orig(self, *a, **k)
+            if name in ("apply_lorch", "_add_keen_fq", "_add_keen_gr"):
+                flowrec[name + "_args"] = arrs(a)
+            out = orig(self, *a, **k)
+            if name == "transform_merged":
+                flowrec["merged"] = arrs([self.q_master[self.sq_title], self.sq_master[self.sq_title],
+                                          self.r_master[self.gr_title], self.gr_master[self.gr_title]])
+            if name in ("fourier_filter", "apply_lorch"):
+                flowrec[name + "_ret"] = arrs(out)
+            return out
         return f
 
     for name in CALLS:
@@ -284,6 +297,7 @@ def run_impl(pystog, case):
     finally:
         cli.StoG = old
         os.chdir(cwd)
+    res["flow"] = flowrec
     res["plan"] = [float(CALLS[n] + (s if (n == "read_all_data" and s is not None) else (2 if n == "read_all_data" else 0))) for n, s in calls]
     res["cli_files"] = listing(da)
     if "status" not in res:
@@ -312,10 +326,19 @@ def to_coq(case, res):
           (Y or {}).get("Scale", 0.0), (Y or {}).get("Offset", 0.0), (FY or {}).get("Scale", 0.0), (FY or {}).get("Offset", 0.0), v["qmin"], v["qmax"]]
     if "status" in res:
         out = [[res["status"]], [], []]
+        return [("chk_config", ([], sc, [int(z) for z in zs], out))]
     else:
         plan = res.get("plan", []) if "cli_error" not in res else []
         out = [res["attrs"], res["dr"], plan]
-    return (([], sc, [int(z) for z in zs], out))
+    encs = [("chk_config", ([], sc, [int(z) for z in zs], out))]
+    fr = res.get("flow") or {}
+    if "cli_error" not in res and "merged" in fr and "_add_keen_gr_args" in fr and "_add_keen_fq_args" in fr:
+        fo = fr.get("fourier_filter_ret")
+        lo = fr.get("apply_lorch_ret")
+        la = fr.get("apply_lorch_args")
+        fl = fr["merged"] + (fo or [[], [], [], []]) + (lo or [[], []]) + (la or [[], [], []]) + fr["_add_keen_fq_args"] + fr["_add_keen_gr_args"]
+        encs.append(("chk_cliflow", (fl, [], [1 if fo else 0, 1 if lo else 0], [])))
+    return encs
 
 
 def nontrivial(case, res):
@@ -378,7 +401,8 @@ def oracle(pystog, case, res):
     if diff:
         if all(res["cli_files"][n] == res["lib3_files"].get(n) for n in a):
             return "CLI output differs from the library only because the CLI reads input with skiprows=3 (first data row of each file dropped): %s" % diff[0]
-        return "CLI and library outputs differ in %r" % diff[:3]
+        d3 = [n for n in a if a[n] != res["lib3_files"].get(n)]
+        return "CLI and library outputs differ in %r (even when the library reads with skiprows=3 like the CLI)" % d3[:3]
     return None
 
 
